@@ -727,11 +727,14 @@ def build_py(spec: Any, pkg: Any, case: Dict[str, Any]) -> Any:
         by_graphql: Dict[str, Tuple[str, Optional[str]]] = {}
         for py, f in cls.model_fields.items():
             by_graphql[f.alias or py] = (py, f.alias)
+        positional = [(py, f.alias) for py, f in cls.model_fields.items()]
         kwargs = {}
-        for f in spec["fields"]:
+        for i, f in enumerate(spec["fields"]):
             if isinstance(f["v"], dict) and f["v"].get("k") == "unset":
                 continue
-            py, alias = by_graphql[f["name"]]
+            # the i-th attribute of the class belongs to the i-th field of the input type; a class that lost an
+            # alias can only be addressed by its Python name
+            py, alias = by_graphql.get(f["name"]) or positional[i]
             kwargs[py if f.get("by") == "name" or alias is None else alias] = build_py(f["v"], pkg, case)
         return cls(**kwargs)
     raise ValueError(k)
@@ -748,10 +751,10 @@ def to_av(spec: Any, classes: Dict[str, List[Dict[str, Any]]]) -> Any:
     if k == "list":
         return {"k": "list", "xs": [to_av(x, classes) for x in spec["xs"]]}
     if k == "model":
-        decl = {(d["alias"] or d["py"]): d for d in classes[spec["cls"]]}
+        decl = classes[spec["cls"]]
         fields = []
-        for f in spec["fields"]:
-            d = decl[f["name"]]
+        for i, f in enumerate(spec["fields"]):
+            d = decl[i]  # class attributes are emitted in the order of the input type's fields
             fields.append({"key": d["alias"] or d["py"], "ann": d["ann"], "v": to_av(f["v"], classes)})
         return {"k": "model", "cls": spec["cls"], "fields": fields}
     if k == "enum":
